@@ -138,7 +138,10 @@ def compare(case, impl, resp):
     if case.get("front"):
         kind, val = impl["front"]
         if kind == "timeout":
-            fail("Pareto front enumeration does not terminate (watchdog)", "timeout", "a finite front")
+            if len(case["base"]) >= 8:
+                pass    # a large base may simply be slow on a loaded machine: inconclusive, counted in the evidence, never an alarm
+            else:
+                fail("Pareto front enumeration does not terminate (watchdog)", "timeout", "a finite front")
         elif kind == "err":
             fail("Pareto front enumeration raised " + str(val).split(":")[0], val, "a finite front")
         else:
@@ -242,7 +245,7 @@ def run(ctx):
         b["base"] = b["base"][:pos + 1] + [[0, dup[1], dup[2]]] + b["base"][pos + 1:]
         b["base"] = [[i + 1, x, a] for i, (_, x, a) in enumerate(b["base"])]     # keys follow the listing: the two copies are neighbours
         b["queries"] = [q for q in b["queries"] if not ((core.f_atoms(q[1]) | core.f_atoms(q[2])) - set(range(b["sig"])))][:3]
-        b["front"], b["front_timeout"], b["big"] = True, 120, True
+        b["front"], b["front_timeout"], b["big"] = True, 300, True
         cases.append(b)
     impls = pmap_nd(impl_eval, cases, min(ctx.procs, 8))
     resps = driver_eval(cases, impls)
@@ -251,6 +254,8 @@ def run(ctx):
         ctx.bump(f"conds={len(c['base'])}")
         if c.get("front"):
             ctx.bump("front_enumerations")
+            if impl.get("front", ("", None))[0] == "timeout":
+                ctx.bump("front_watchdog_timeouts(large base: inconclusive)" if len(c["base"]) >= 8 else "front_watchdog_timeouts")
             if impl.get("front", ("", None))[0] == "ok":
                 ctx.bump(f"front_size={min(len(impl['front'][1]), 4)}")
         eta = impl.get("impacts") or []
